@@ -469,12 +469,15 @@ def c06(ctx, rep):
     base = {corr.case_id(t)[:-2] for t in twins}
     sel = [l for l in lines if corr.case_id(l) in base] + twins
     model = corr.run_model(ctx.sc, ctx.model(), ctx.tables(), sel, tag="c06lrm")
-    ok = [l for l in sel if model.get(corr.case_id(l), {}).get("out") not in corr.NONTERM]
+    ok = [l for l in sel if model.get(corr.case_id(l), {}).get("out") not in corr.NONTERM
+          and not str(model.get(corr.case_id(l), {}).get("out", "")).startswith("model-")]
     impl = corr.run_impl(ctx.sc, ctx.hosts(), ok, 4000)
     lrpairs = 0
     for t in twins:
         a, b = impl.get(corr.case_id(t)[:-2], {}), impl.get(corr.case_id(t), {})
         if not a or not b or c08_skip(t, a, b):
+            continue
+        if any(str(model.get(cid, {}).get("out", "")).startswith("model-") for cid in (corr.case_id(t)[:-2], corr.case_id(t))):
             continue
         lrpairs += 1
         if not same_on(["out", "val"], a, b):
